@@ -254,7 +254,8 @@ def execute(case, scratch):
                         "violation": {"class": cls, "detail": {"via": "real subprocess", "diff": _first_diff(outs[0][1], outs[1][1]),
                                                                "groups": [outs[0][2], outs[1][2]]}}}
         return {"verdict": "ok", "stats": stats, "nontrivial": bool(stats["faults"]),
-                "obs_digest": core.jdigest({k: base[k] for k in sorted(base) if k != "set_order"})}
+                "obs_digest": core.jdigest({k: base[k] for k in sorted(base)
+                                            if k not in ("set_order", "metrics")})}
     finally:
         W.cleanup(top)
 
